@@ -54,7 +54,7 @@ META = dict(
 
 REPRS = ['float32', 'int16', 'int32', 'uint16', 'int64', '>f8', '>f4',
          'fortran', 'strided', 'masked-empty', 'quantity', 'nddata',
-         'mixed-units']
+         'mixed-units', 'quantity-aux-scaled']
 
 
 def _scene():
@@ -85,7 +85,14 @@ def _represent(arr, rep):
         return np.ma.MaskedArray(arr.copy(), mask=np.zeros(arr.shape, bool))
     if rep == 'quantity':
         return arr * u.adu
+    if rep == 'quantity-aux-scaled':
+        return arr * u.Jy
     return arr.copy()
+
+
+# auxiliary quantities (errors, thresholds, initial fluxes, local backgrounds)
+# are given in an equivalent but different unit (mJy for data in Jy)
+_AUX = dict(scaled=False)
 
 
 def _entries():
@@ -108,6 +115,11 @@ def _entries():
     E = {}
 
     def val(x):
+        if _AUX['scaled'] and getattr(x, 'unit', None) is not None:
+            if x.unit.is_equivalent(u.Jy):
+                x = x.to(u.Jy)
+            elif x.unit.is_equivalent(u.Jy ** 2):
+                x = x.to(u.Jy ** 2)
         return np.asarray(getattr(x, 'value', x), dtype=float)
 
     def tbl(t, cols):
@@ -117,6 +129,8 @@ def _entries():
         return getattr(x, 'unit', None)
 
     def q(v, d):
+        if _AUX['scaled'] and hasattr(d, 'unit'):
+            return (np.asarray(v, float) * 1000.0) * u.mJy
         return v * d.unit if hasattr(d, 'unit') else v
 
     def e_aper(d, e, nd):
@@ -207,6 +221,9 @@ def _entries():
         model = CircularGaussianPRF(fwhm=3.6)
         init = QTable(dict(x=[10.1, 30.2, 12.9, 31.0],
                            y=[9.0, 12.1, 29.0, 29.9]))
+        src = nd if nd is not None else d
+        init['flux'] = q(np.array([9000., 12000., 9500., 8000.]), src)
+        init['local_bkg'] = q(np.array([20., 21., 19., 20.]), src)
         ph = PSFPhotometry(model, (5, 5), aperture_radius=4)
         t = ph(nd if nd is not None else d,
                error=None if nd is not None else e, init_params=init)
@@ -347,6 +364,15 @@ def _check(entry, rep, twin=False):
             return _compare(base, out, 1e-9, 1e-9)
         d = _represent(img, rep)
         e = err.copy()
+        _AUX['scaled'] = (rep == 'quantity-aux-scaled')
+        if rep == 'quantity-aux-scaled':
+            # only PSFPhotometry documents *compatible* (not identical)
+            # units, for the flux / local_bkg columns of init_params; every
+            # other input must carry exactly the data unit
+            if entry != 'PSFPhotometry':
+                _AUX['scaled'] = False
+                return None
+            e = e * u.Jy
         if rep == 'quantity':
             e = e * u.adu
         if rep in ('float32', '>f4'):
@@ -355,7 +381,10 @@ def _check(entry, rep, twin=False):
             out, unit = fn(d, e, None)
         except Exception as ex:  # noqa
             return f'{rep} input failed although float64 works: {ex!r}'
-    if rep == 'quantity' and base and unit is None and entry not in (
+        finally:
+            _AUX['scaled'] = False
+    if rep in ('quantity', 'quantity-aux-scaled') and base and unit is None \
+            and entry not in (
             'centroids', 'fit_fwhm', 'detect+deblend'):
         return 'Quantity input: output carries no unit'
     rtol, atol = (2e-4, 2e-3) if rep in ('float32', '>f4') else (1e-9, 1e-9)
